@@ -208,6 +208,20 @@ def _str_to_set(
     return {value}
 
 
+def _str_to_set_of_notices(value: Any) -> Any:
+    """Like :func:`_str_to_set`. An empty string is no copyright notice: it
+    must not count as the copyright information that a table provides.
+    """
+    result = _str_to_set(value)
+    if isinstance(result, set):
+        return {
+            item
+            for item in result
+            if not isinstance(item, str) or item.strip()
+        }
+    return result
+
+
 def _str_to_set_of_expr(value: Any) -> set[Expression]:
     value = _str_to_set(value)
     result = set()
@@ -344,7 +358,7 @@ class AnnotationsItem:
         converter=_str_to_global_precedence, default=PrecedenceType.CLOSEST
     )
     copyright_lines: set[str] = attrs.field(
-        converter=_str_to_set,
+        converter=_str_to_set_of_notices,
         validator=_validate_collection_of(set, str, optional=True),
         default=None,
     )
